@@ -1117,6 +1117,16 @@ pub fn replay_prop<P: Prop>(p: P, path: &str) -> i32 {
     }
 }
 
+/// Helper for enumerations: evaluates one enumerated case, turning a panic (of the library or of the check)
+/// into a failure of that case instead of tearing the shard down.
+pub fn guarded<C: Clone>(case: &C, f: impl FnOnce() -> Result<(), Failure>) -> Result<(), (C, Failure)> {
+    match catch(f) {
+        Ok(Ok(())) => Ok(()),
+        Ok(Err(fl)) => Err((case.clone(), fl)),
+        Err(p) => Err((case.clone(), Failure::new(format!("harness-or-library panic: {}", p), "no panic", p))),
+    }
+}
+
 /// Helper for enumerations: contiguous chunk [lo,hi) of 0..n for a shard.
 pub fn chunk(n: u64, shard: usize, nshards: usize) -> (u64, u64) {
     let per = n / nshards as u64;
